@@ -5,7 +5,7 @@ import (
 	"go/token"
 	"strings"
 
-	"golang.org/x/tools/go/ssa"
+	"ikeverif/checker/xt/ssa"
 )
 
 // RunC06 decides property C06.
